@@ -41,6 +41,11 @@ func (a *Analysis) CheckC12(rep *Report) {
 			got[r.Key] = r
 			want, inGold := gold[r.Key]
 			if !rep.Ob("T1-key-in-schema", k, inGold, rpos, fmt.Sprintf("key %s -> %s is not a discriminator of the pinned schema", r.Key, r.Type)) {
+				// a key the pinned schema does not have (a message type added to the protocol): against the pinned schema it
+				// is an unregistered value that should be refused, so C12 (and C02) report it; the registration itself is
+				// still held to the rules every registration obeys
+				rep.Ob("T1-factory-fresh", k, r.Fresh, rpos, fmt.Sprintf("factory for key %s does not return a fresh non-nil allocation", r.Key))
+				rep.Ob("T6-registered-from-init", k, r.InInit, rpos, "registration outside a package init function")
 				continue
 			}
 			rep.Ob("T1-key-maps-to-pinned-type", k, r.Type == want, rpos, fmt.Sprintf("key %s builds %s, the pinned schema says %s", r.Key, r.Type, want))
@@ -399,10 +404,18 @@ func (a *Analysis) pinnedTable(g *Golden, name string) string {
 func (a *Analysis) discriminatorPremise(rep *Report, rule, why string) {
 	scratch := NewReport("C12", "other", "quick", 0)
 	a.CheckC12(scratch)
+	n := 0
 	for _, v := range scratch.Violations {
+		// a key that the pinned schema does not have at all is a matter for C02 and C12 (the protocol was extended); the
+		// properties that import this premise – round trip, consumption, re-encoding, truncation – need the two sides to
+		// agree on the type a key builds, which the other table rules (T1 duplicate keys, T2, T3, T4) decide for it too
+		if v.Rule == "T1-key-in-schema" {
+			continue
+		}
+		n++
 		rep.Ob(rule, v.Key, false, v.Pos, why+": "+v.Msg)
 	}
-	if len(scratch.Violations) == 0 {
+	if n == 0 {
 		rep.Ob(rule, "all-tables", true, "", "")
 	}
 }
